@@ -445,5 +445,5 @@ def setup():
 
 
 def selftest(tier):
-    log("selftest: not yet implemented")
-    return 0
+    import selftest as st
+    return st.main(tier)
